@@ -260,6 +260,14 @@ def slice_with_newaxes(x, index):
     x = slice_wrap_lists(x, index2, not where_none)
 
     if where_none:
+        if not isinstance(x, SliceSlicesIntegers):
+            # Fancy index (or a no-op take): the result is not a plain slicing
+            # expression whose per-block index could be rewritten.  Index without
+            # the new axes first, then insert them into every output block.
+            # No integers are left at this point, so both positions coincide.
+            return SlicesWrapNone(
+                x, (slice(None, None, None),) * x.ndim, False, where_none, where_none
+            )
         return SlicesWrapNone(
             x.array, x.index, x.allow_getitem_optimization, where_none, where_none_orig
         )
